@@ -23,7 +23,7 @@ ASSUMPTIONS = [
 ]
 REQUIRED = ['one_shot_fired', 'persistent_fired_3plus', 'interval_zero', 'equal_expiries', 'datetime_deadline', 'reset_live_timer',
             'unregister_live_timer', 'unregister_persistent_after_firing', 'idle_wait_bounded_by_timer', 'two_timers_alive', 'sleep_task_present',
-            'unbounded_idle_without_timers', 'double_event_instances', 'virtual_time_calls', 'source_fire_seen',
+            'unbounded_idle_without_timers', 'poller_idle_wait_on_virtual_clock_Select', 'poller_idle_wait_on_virtual_clock_Poll', 'poller_idle_wait_on_virtual_clock_EPoll', 'double_event_instances', 'virtual_time_calls', 'source_fire_seen',
             'datetime_deadline_in_non_utc_zone', 'handler_consumed_time', 'clock_advances_between_readings', 'reset_with_new_interval', 'reset_to_zero_interval',
             'timer_object_registered_again_after_it_left', 'timer_registered_from_another_thread_while_loop_idle', 'registering_thread_preempted_inside_register']
 REQUIRED_OBLIGATIONS = ['NOT_EARLY', 'ONE_SHOT_ONCE', 'ONE_SHOT_DETACHED', 'PERSISTENT_SPACING', 'NO_FIRE_AFTER_UNREGISTER', 'RESET_RESTARTS',
@@ -255,6 +255,60 @@ def _run_case(case, clock):
     app = App()
     clock.on_wait = on_wait
     clock.on_unbounded = on_unbounded
+    restore = []
+    if case.get('poller'):
+        # a poller in the tree does the idle sleep instead of the fall-back generator: its wait (select.select / poll.poll / epoll.poll) is
+        # put on the virtual clock too.  The double first asks the real call with a zero timeout (wake-ups through the control pipe are
+        # real), then lets the requested time pass virtually - in the unit the real call defines: seconds, or milliseconds for poll.poll
+        import select as _select
+
+        from circuits.core import pollers as _pollers
+
+        def virtual_wait(seconds):
+            marks.add('poller_idle_wait_on_virtual_clock_' + case['poller'])
+            if seconds is None or seconds < 0 or seconds >= 10000:
+                clock.waits.append((clock.now, None))
+                on_unbounded()
+                return
+            on_wait(clock.now, seconds)
+            clock.waits.append((clock.now, seconds))
+            if seconds > 0:
+                clock.now += seconds
+
+        class PollDouble:
+            def __init__(self, real, unit):
+                self._real, self._unit = real, unit
+
+            def poll(self, timeout=None, *rest):
+                got = self._real.poll(0)
+                if got:
+                    return got
+                virtual_wait(None if timeout is None else timeout * self._unit)
+                return self._real.poll(0)
+
+            def __getattr__(self, name):
+                return getattr(self._real, name)
+
+        class SelectDouble:
+            def select(self, r, w, x, timeout=None):
+                got = _select.select(r, w, x, 0)
+                if any(got):
+                    return got
+                virtual_wait(timeout)
+                return _select.select(r, w, x, 0)
+
+            def __getattr__(self, name):
+                return getattr(_select, name)
+
+        if case['poller'] == 'Select':
+            restore.append(_pollers.select)
+            _pollers.select = SelectDouble()
+            poller = _pollers.Select()
+        else:
+            poller = getattr(_pollers, case['poller'])()
+            poller._poller = PollDouble(poller._poller, 0.001 if case['poller'] == 'Poll' else 1.0)
+        poller.register(app)
+        restore.append(poller)
     # the ghost expiry of a timer moves when it fires: Timer fires its event through its own fire() (same virtual time);
     # wrap that method per instance so the model follows at the moment of firing
     real_do = do
@@ -285,6 +339,20 @@ def _run_case(case, clock):
         app.run()
     except BaseException as e:
         raised = e
+    finally:
+        for r in restore:
+            if hasattr(r, '_ctrl_recv'):
+                import os as _os
+                for end_ in (r._ctrl_recv, r._ctrl_send):
+                    try:
+                        end_.close() if hasattr(end_, 'close') else _os.close(end_)
+                    except OSError:
+                        pass
+                if hasattr(getattr(r, '_poller', None), 'close'):
+                    r._poller.close()
+            else:
+                from circuits.core import pollers as _pollers
+                _pollers.select = r
     clock.active = False
     if raised is not None:
         return [('LOOP_RAISED', {'error': repr(raised)})], {'marks': marks, 'counts': counts, 'nontrivial': False}
@@ -378,6 +446,14 @@ def corpus():
                 acts.append([round(0.5 * k - (8 * m + k) * dlt / 2, 7), 'fire'])
             cs.append({'name': 'running-clock-%g-%d' % (dlt, m), 'read_cost': dlt, 'end': 6.0, 'actions': acts})
     cs.append({'name': 'idle-gap', 'end': 9.0, 'actions': [[0, N, 1, 0.1, False], [4.0, N, 2, 0.25, False], [6.0, 'fire'], [7.0, N, 3, 1, False]]})
+    # the same scenarios with a poller in the tree: the poller, not the fall-back generator, sleeps while the loop is idle
+    import copy
+    for c in [c for c in cs if c.get('name') in ('mixed', 'reset', 'unregister', 'sleepers', 'datetime', 'late-loop')]:
+        for mech in ('Select', 'Poll', 'EPoll'):
+            d = copy.deepcopy(c)
+            d['name'] += '-' + mech
+            d['poller'] = mech
+            cs.append(d)
     return cs
 
 
@@ -428,6 +504,9 @@ def gen_case(rng):
                     acts.append([round(a[0] + n * a[3] - rng.randint(0, 60) * dlt / 2, 7), 'fire'])
     if any(isinstance(a[3], list) for a in acts if a[1] == 'new') and rng.random() < 0.6:
         case['tz'] = rng.choice(['EST5', 'CET-1', 'IST-5:30', 'NZST-12'])
+    r2 = random.Random(repr(acts))     # (a stream of its own: the cases generated before this option keep their shape)
+    if r2.random() < 0.3:
+        case['poller'] = r2.choice(['Select', 'Poll', 'EPoll'])
     return case
 
 
